@@ -118,6 +118,7 @@ func expireRun(args []string) int {
 	}
 	close(jobs)
 	wg.Wait()
+	exp.WaitStops()
 	bw.Flush()
 	of.Close()
 	if firstErr != nil {
